@@ -13,6 +13,7 @@ import (
 	"path/filepath"
 	"sort"
 	"strings"
+	"sync/atomic"
 
 	"github.com/meshplus/bitxhub-kit/types"
 	"github.com/meshplus/bitxhub-model/pb"
@@ -114,7 +115,7 @@ func chainWorkload(prop string, args []string) int {
 
 func chainCase(prop string, w *vlog.W, a *wargs, id int) {
 	rng := vlog.CaseRand(a.Seed, "chain", id)
-	opts := harness.Options{NoAudit: rng.Intn(2) == 0}
+	opts := harness.Options{NoAudit: rng.Intn(2) == 0, ReaderMon: prop == "C09"}
 	w.CaseStart(id, map[string]interface{}{"opts": opts, "kind": "chain-audit"})
 	guard(w, "chain", func() {
 		world, dir, err := newCaseWorld(a.Work, id, opts, "chain")
@@ -159,6 +160,12 @@ func chainCase(prop string, w *vlog.W, a *wargs, id int) {
 		}
 		world.Rec = nil
 		audit := func(ctx string) {
+			// what a reader concurrent with execution and persist saw since the last audit
+			w.Count("obs_concurrent_reader_polls", atomic.SwapInt64(&world.R.ReaderPolls, 0))
+			for _, f := range world.R.ReaderFindings {
+				viol("C09", f.Sig, ctx+": "+f.Detail)
+			}
+			world.R.ReaderFindings = nil
 			fs, nb, nl := world.R.AuditChain(recs)
 			w.Count("audited_blocks", int64(nb))
 			w.Count("audited_lookups", int64(nl))
